@@ -1385,7 +1385,7 @@ class SliceSubsetState(SubsetState):
                 slices = [self.slices[idx] for idx in order]
 
         if (isinstance(view, np.ndarray) or
-                (isinstance(view, (tuple, list)) and len(view) > 0 and isinstance(view[0], np.ndarray))):
+                (isinstance(view, (tuple, list)) and any(isinstance(v, np.ndarray) for v in view))):
             mask = np.zeros(data.shape, dtype=bool)
             mask[tuple(slices)] = True
             return mask[view]
